@@ -173,12 +173,15 @@ def pair_sustain(ctx, R="C07.pair"):
               ast.unparse(cmp_[0].body[0]) == "return False", R, c, "Sustain comparison",
               "member i+j must equal the group's first trial", "Sustain checker comparison changed: %s" % (
                   str(rc.at(cmp_[0], cmp_[0].test)) if cmp_ else "?"))
-    both = [l for l in ra.for_loops() if str(l["iter"]) == "block.design"] and [l for l in rc.for_loops() if str(l["iter"]) == "block.design"]
-    ctx.check(bool(both), R, c, "Sustain factors", "both sides range over block.design", "Sustain sides range over different factor sets")
+    # the encoder holds the encoded factors (act_design); the implied factors that design adds are computed from the first trial of
+    # each sustain group of their (held) sources, so either collection denotes the same constraint on both sides
+    FACTORS = ("block.design", "block.act_design")
+    both = [l for l in ra.for_loops() if str(l["iter"]) in FACTORS] and [l for l in rc.for_loops() if str(l["iter"]) in FACTORS]
+    ctx.check(bool(both), R, c, "Sustain factors", "both sides range over the block's factors (design / act_design)", "Sustain sides range over different factor sets")
     # which factors are held: the encoder ties every factor of the design (no filter); the checker may skip only factors that
     # are not sustained at all (count 1), where there is nothing to compare
-    la = [l["stmt"] for l in ra.for_loops() if str(l["iter"]) == "block.design"]
-    lc = [l["stmt"] for l in rc.for_loops() if str(l["iter"]) == "block.design"]
+    la = [l["stmt"] for l in ra.for_loops() if str(l["iter"]) in FACTORS]
+    lc = [l["stmt"] for l in rc.for_loops() if str(l["iter"]) in FACTORS]
     if la and lc:
         from ..facts import Facts
         Fa, Fc = Facts(a), Facts(c)
